@@ -1,0 +1,63 @@
+//go:build verif
+
+// Machine-checked contracts for package excellent (comment-only; read by /verif/gocv).
+// C12: the hand-written template scanner. The input is the ghost rune sequence scanIn (see /verif/contracts/ext/std.spec,
+// bufio.Reader.ReadRune); it contains no NUL (the scanner's end-of-input marker) - precondition inputOK.
+
+package excellent
+
+//@ pred inputOK() bool := 0 <= ghost.scanPos && ghost.scanPos <= len(ghost.scanIn) && (forall k int :: (0 <= k && k < len(ghost.scanIn)) ==> ghost.scanIn[k] != eof)
+//@ pred inOK(r *xinput) bool := r != nil && r.base != nil && 0 <= r.unreadCount && r.unreadCount <= len(r.unreadRunes) && len(r.unreadRunes) == 4
+
+// read: the most recently unread rune if there is one, else the next rune of the input, else eof
+//@ func (r *xinput) read
+//@   nopanic
+//@   requires inOK(r) && inputOK()
+//@   assigns r.unreadCount, ghost.scanPos
+//@   ensures [from_stack] old(r.unreadCount) > 0 ==> (result == old(r.unreadRunes[r.unreadCount - 1]) && r.unreadCount == old(r.unreadCount) - 1 && ghost.scanPos == old(ghost.scanPos))
+//@   ensures [from_input] (old(r.unreadCount) == 0 && old(ghost.scanPos) < len(ghost.scanIn)) ==> (result == ghost.scanIn[old(ghost.scanPos)] && ghost.scanPos == old(ghost.scanPos) + 1 && r.unreadCount == 0)
+//@   ensures [at_end] (old(r.unreadCount) == 0 && old(ghost.scanPos) >= len(ghost.scanIn)) ==> (result == eof && ghost.scanPos == old(ghost.scanPos) && r.unreadCount == 0)
+//@   ensures [ok] inOK(r) && inputOK()
+
+//@ func (r *xinput) unread
+//@   nopanic
+//@   requires inOK(r) && r.unreadCount < len(r.unreadRunes)
+//@   assigns r.unreadCount, r.unreadRunes[all]
+//@   ensures [pushed] r.unreadCount == old(r.unreadCount) + 1 && r.unreadRunes[old(r.unreadCount)] == ch && (forall k int :: (0 <= k && k < old(r.unreadCount)) ==> r.unreadRunes[k] == old(r.unreadRunes[k]))
+//@   ensures [ok] inOK(r)
+
+// number of consecutive backslashes that end right before position p, not looking back beyond the start p0 of the literal
+//@ pure bsRun(p0 int, p int) int
+//@   reads ghost.scanIn
+//@ axiom bsRun_def: forall p0 int, p int {bsRun(p0, p)} :: (p <= p0 ==> bsRun(p0, p) == 0) && (p > p0 ==> bsRun(p0, p) == (ghost.scanIn[p - 1] == 92 ? bsRun(p0, p - 1) + 1 : 0))
+// position q holds the quote that ends the literal started at p0: a quote preceded by an even run of backslashes
+//@ pred endsLiteral(p0 int, q int) bool := p0 <= q && q < len(ghost.scanIn) && ghost.scanIn[q] == 34 && bsRun(p0, q) % 2 == 0
+
+// readTextLiteral (called right after the opening quote, nothing unread): consumes up to and including the first quote that
+// is preceded by an even number of backslashes, or everything if there is none
+//@ func (s *xscanner) readTextLiteral
+//@   uses bsRun_def
+//@   requires s != nil && inOK(s.input) && inputOK() && s.input.unreadCount == 0
+//@   ensures [ends_at_first_unescaped_quote] (exists q int :: endsLiteral(old(ghost.scanPos), q) && (forall j int :: (old(ghost.scanPos) <= j && j < q) ==> !endsLiteral(old(ghost.scanPos), j)) && ghost.scanPos == q + 1) || ((forall j int :: (old(ghost.scanPos) <= j && j < len(ghost.scanIn)) ==> !endsLiteral(old(ghost.scanPos), j)) && ghost.scanPos == len(ghost.scanIn))
+//@   ensures [nothing_unread] s.input.unreadCount == 0 && inOK(s.input) && inputOK()
+//@   witness [ends_at_first_unescaped_quote] q := ghost.scanPos - 1
+// at the loop head ch is the rune just read (at scanPos - 1) and not yet looked at, or eof with the input used up
+//@ loop 1
+//@   invariant inOK(s.input) && inputOK() && s.input.unreadCount == 0
+//@   invariant ch != eof ==> (old(ghost.scanPos) + 1 <= ghost.scanPos && ch == ghost.scanIn[ghost.scanPos - 1])
+//@   invariant ch == eof ==> (ghost.scanPos == len(ghost.scanIn) && old(ghost.scanPos) <= ghost.scanPos)
+//@   invariant escaped <==> (bsRun(old(ghost.scanPos), (ch != eof ? ghost.scanPos - 1 : ghost.scanPos)) % 2 == 1)
+//@   invariant forall j int :: (old(ghost.scanPos) <= j && j < (ch != eof ? ghost.scanPos - 1 : ghost.scanPos)) ==> !endsLiteral(old(ghost.scanPos), j)
+
+// scanIdentifier: the allowed top-levels decide between an identifier and literal text; a nil list allows everything, an
+// empty list nothing
+//@ func (s *xscanner) scanIdentifier
+//@   nopanic
+//@   havocs WriteRune, String, ToLower, Sprintf
+//@   requires s != nil && inOK(s.input) && inputOK() && s.input.unreadCount <= 2
+//@   ensures [nil_allows_all] s.identifierTopLevels == nil ==> result0 == IDENTIFIER
+//@   ensures [empty_allows_none] (s.identifierTopLevels != nil && len(s.identifierTopLevels) == 0) ==> result0 == BODY
+//@ loop 1
+//@   invariant inOK(s.input) && inputOK() && s.input.unreadCount <= 2
+//@ loop 2
+//@   invariant true
